@@ -59,7 +59,9 @@ class Prop(common.PropertyCheck):
         events = [list(row) for row in zip(*ev)]
         r.shuffle(events)
         extra = [['$P%dG' % (c + 1), g] for c, g in enumerate(case['gain']) if g is not None]
-        spec = {'version': 'FCS3.0', 'delim': '/', 'datatype': 'I', 'byteord': '1,2,3,4', 'widths': [32] * D, 'ranges': case['res'],
+        # the narrowest container that holds the declared range (8 / 16 / 32 bit): integer arithmetic on raw events may wrap
+        widths = [8 if rr <= 256 else 16 if rr <= 65536 else 32 for rr in case['res']] if case['seed'] % 2 else [32] * D
+        spec = {'version': 'FCS3.0', 'delim': '/', 'datatype': 'I', 'byteord': '1,2,3,4', 'widths': widths, 'ranges': case['res'],
                 'events': events, 'names': ['CH%d' % c for c in range(D)], 'pne': {str(c + 1): case['pne'][c] for c in range(D)}, 'extra': extra}
         d, _ = samples.load(spec, name='c07.fcs')
         return d, r
@@ -113,9 +115,16 @@ class Prop(common.PropertyCheck):
                 kw = {'amplification_type': [r.choice([(4, 1), (0, 0), (3, 1), None]) for _ in ch1],
                       'amplifier_gain': [r.choice([None, 2.0, 0.5]) for _ in ch1], 'resolution': [None for _ in ch1]}
             m0 = FlowCal.gate.high_low(d, full_output=True).mask
+            gl = list(names)
+            r.shuffle(gl)
+            gl = [g if r.random() < 0.6 else names.index(g) for g in gl[:r.randrange(1, D + 1)]]      # channel list of the explicit gates, any order / spelling
+            g0 = FlowCal.gate.high_low(d, gl, full_output=True).mask
             rfi = FlowCal.transform.to_rfi(d, ch1, **kw)
             limits_check(d, rfi, cols_of(ch1), 'to_rfi')
             m1 = FlowCal.gate.high_low(rfi, full_output=True).mask
+            g1 = FlowCal.gate.high_low(rfi, gl, full_output=True).mask
+            if not np.array_equal(g0, g1):
+                out['problems'].append('to_rfi(channels=%s): the saturation gate on channels %s keeps %d events before and %d after' % (ch1, gl, int(g0.sum()), int(g1.sum())))
             if not np.array_equal(m0, m1):
                 out['problems'].append('to_rfi(channels=%s): saturation gate keeps %d events before and %d after (differing events %s)' % (
                     ch1, int(m0.sum()), int(m1.sum()), np.nonzero(m0 != m1)[0][:5].tolist()))
@@ -143,6 +152,9 @@ class Prop(common.PropertyCheck):
             mef = FlowCal.transform.to_mef(rfi, ch2, scs, sc_ch)
             limits_check(rfi, mef, ccols, 'to_mef')
             m2 = FlowCal.gate.high_low(mef, full_output=True).mask
+            g2 = FlowCal.gate.high_low(mef, gl, full_output=True).mask
+            if not np.array_equal(g1, g2):
+                out['problems'].append('to_mef(channels=%s): the saturation gate on channels %s keeps %d events before and %d after' % (ch2, gl, int(g1.sum()), int(g2.sum())))
             if not np.array_equal(m1, m2):
                 out['problems'].append('to_mef(channels=%s): saturation gate keeps %d events before and %d after' % (ch2, int(m1.sum()), int(m2.sum())))
             converted_first = FlowCal.gate.high_low(mef)
